@@ -39,6 +39,7 @@ pub fn check(events: &[Event], jumps: &[usize], emitted: Option<&[usize]>, emitt
                     m += 1; in_method = 0; last_wide = 0;
                 }
             }
+            Event::InstructionStart { .. } => {} // reader events (C01 judges them); the writer log is recorded around write_class only
             Event::Pool { count, entries, two_slot_entries } => {
                 pool_events += 1;
                 r.pool = Some((*count, *entries, *two_slot_entries));
